@@ -55,3 +55,58 @@ package server
 //@   nosafety except close
 //@   requires nifa != nil && spec_ifaInv(nifa)
 //@   ensures spec_ifaInv(nifa) && !nifa.initialized
+
+// Property C31 (the part one hello decides): the adjacency state is changed by
+// a hello only to Up, and only when its three-way TLV lists this system and
+// circuit and the adjacency is not Up; or to Down, and only when the TLV does
+// not list them and the adjacency is Up. A hello without the TLV changes nothing.
+//@ contract (*neighbor).processP2PHello
+//@   props C31
+//@   nosafety
+//@   requires n != nil && hello != nil
+//@   call setState args s uint8 vars p2pAdjState *packet.P2PAdjacencyStateTLV requires p2pAdjState != nil && ((s == packet.P2PAdjStateUp && n.state != packet.P2PAdjStateUp && n.p2pAdjTLVContainsSelf(p2pAdjState)) || (s == packet.P2PAdjStateDown && n.state == packet.P2PAdjStateUp && !n.p2pAdjTLVContainsSelf(p2pAdjState)))
+
+// The periodic check takes an adjacency Down only from Up, and gives a
+// neighbor up only when it is Down.
+//@ contract (*neighbor).adjChecker
+//@   props C31
+//@   nosafety
+//@   requires n != nil
+//@   call down vars state uint8 requires state == packet.P2PAdjStateUp
+//@   call dispose vars state uint8 requires state == packet.P2PAdjStateDown
+
+// A neighbor created from a first hello is not Up: it starts in Init, with the
+// sender's system ID and address.
+//@ contract (*neighborManager).neighborFromP2PHello
+//@   props C31
+//@   nosafety
+//@   requires nm != nil && hello != nil
+//@   ensures result != nil && result.state == packet.P2PAdjStateInit && result.sysID == hello.SystemID && result.addr == addr && result.nm == nm
+
+// The neighbors advertised in the local LSP are taken from this list: every
+// neighbor in it is Up.
+//@ contract (*neighborManager).getNeighborsUp
+//@   props C31
+//@   nosafety
+//@   requires nm != nil
+//@   ensures forall(k, 0, len(result), result[k].state == packet.P2PAdjStateUp)
+//@   modifies nothing
+//@   loop 0 vars ret []*neighbor
+//@   loop 0 invariant verif_freshslice(ret) && forall(k, 0, len(ret), ret[k].state == packet.P2PAdjStateUp)
+
+// The first hello of a sender only creates the neighbor (in Init, nothing is
+// processed further: nil is returned); later hellos find that neighbor.
+//@ spec
+//@ func spec_hasNb(nm *neighborManager, src ethernet.MACAddr) bool {
+//@ 	_, ok := nm.neighbors[src]
+//@ 	return ok
+//@ }
+//@ end
+//@ contract (*neighborManager).addNeighborIfNotExists
+//@   props C31
+//@   nosafety
+//@   requires nm != nil && hello != nil && nm.neighbors != nil
+//@   old had bool = spec_hasNb(nm, src)
+//@   old nb *neighbor = nm.neighbors[src]
+//@   ensures had ==> result == nb && nm.neighbors[src] == nb
+//@   ensures !had ==> result == nil && spec_hasNb(nm, src) && nm.neighbors[src] != nil && nm.neighbors[src].state == packet.P2PAdjStateInit
